@@ -32,6 +32,8 @@ type CLI struct {
 	Pending *Ask
 
 	EchoWrap  int  // >0: insert " \r" after every EchoWrap echoed bytes of a line
+	EchoBreak bool // CR LF in front of the second echoed byte of a line (a terminal breaking the line at its right margin)
+	breakDue  bool
 	NoEcho    bool // device never echoes
 	EOL       string
 	line      []byte
@@ -93,11 +95,21 @@ func (c *CLI) OnInput(b []byte) []byte {
 			c.line = append(c.line, ch)
 
 			if (c.Pending == nil || c.Pending.Echo) && !c.NoEcho {
+				if c.breakDue {
+					// the terminal breaks the line in front of the second character it echoes
+					out.WriteString("\r\n")
+					c.breakDue = false
+				}
+
 				out.WriteByte(ch)
 				c.echoed++
 
 				if c.EchoWrap > 0 && c.echoed%c.EchoWrap == 0 {
 					out.WriteString(" \r")
+				}
+
+				if c.EchoBreak && c.echoed == 1 {
+					c.breakDue = true
 				}
 			}
 
@@ -107,6 +119,7 @@ func (c *CLI) OnInput(b []byte) []byte {
 		line := string(c.line)
 		c.line = nil
 		c.echoed = 0
+		c.breakDue = false
 
 		out.WriteString(c.EOL)
 
